@@ -386,6 +386,30 @@ func CheckFaithful(d *GDoc, pb lib.PBus) []finding {
 					}
 				}
 			}
+			// a multiplexed signal belongs to the groups the file names: its switch value, or the
+			// SG_MUL_VAL_ ranges when the extended multiplexing section lists it
+			if s.Muxed {
+				exp := map[int64]bool{int64(s.Switch): true}
+				for _, x := range d.ExtMuxes {
+					if x.Msg == m.ID && x.Muxed == s.Name {
+						exp = map[int64]bool{}
+						for _, r := range x.Ranges {
+							for g := int64(r[0]); g <= int64(r[1]) && g < 1<<16; g++ {
+								exp[g] = true
+							}
+						}
+					}
+				}
+				same := len(exp) == len(ps.Membership)
+				for _, g := range ps.Membership {
+					if !exp[g] {
+						same = false
+					}
+				}
+				if !same {
+					add("c10-signal-mux-groups", "%s: multiplexed by the switch values %v in the file, member of the groups %v in the bus", sw, keysOf(exp), ps.Membership)
+				}
+			}
 			switch {
 			case s.Muxor:
 				if ps.Kind != 2 {
@@ -430,6 +454,15 @@ func CheckFaithful(d *GDoc, pb lib.PBus) []finding {
 		}
 	}
 	return out
+}
+
+func keysOf(m map[int64]bool) []int64 {
+	r := []int64{}
+	for k := range m {
+		r = append(r, k)
+	}
+	sort.Slice(r, func(i, j int) bool { return r[i] < r[j] })
+	return r
 }
 
 func clause(s string) string {
